@@ -198,7 +198,28 @@ fn dig_route(text: &str, st: &mut Stats) -> Option<(String, String)> {
     }
 }
 
+/// C12 through a file object: the test is loaded once (it parses), then the public source field is
+/// overwritten with `text` and the test loaded again (also from a clone): is the text accepted?
+fn accepted_after_edit_of_a_loaded_file(text: &str) -> bool {
+    let Some(mut f) = BASE_FILE.with(|b| b.clone()) else { return false };
+    let t = text.to_string();
+    guard(DEFAULT_BUDGET, move || {
+        let _ = f.load_test(0);
+        let _ = f.load_test_by_name("t");
+        f.test_cases[0].source = t;
+        let g = f.clone();
+        !matches!(f.load_test(0), Err(dtr::errors::LoadTestError::ParseError(_))) || !matches!(g.load_test_by_name("t"), Err(dtr::errors::LoadTestError::ParseError(_)))
+    })
+    .unwrap_or(false)
+}
+
 fn check_text(mode: Mode, text: &str, order: u64, rendered: &mut HashSet<u64>, st: &mut Stats) -> ParseObs {
+    if mode == Mode::C12 && (order >> 60) >= 3 && refgrammar::parse(text).is_err() {
+        st.witness("malformed_text_written_into_a_loaded_file");
+        if accepted_after_edit_of_a_loaded_file(text) {
+            st.violation("accepted: malformed text (source field of a loaded file edited, test loaded again)", order, format!("text ({} bytes): {:?}\nthe reference grammar rejects the text; a file object whose test was loaded once and whose source field was then overwritten with it loads the test without a parse error", text.len(), text), || json!({"kind": "parse", "edited_file": true, "text": text, "expected": ["rejected"], "observed": ["accepted"]}));
+        }
+    }
     if mode == Mode::C09 && (order >> 60) >= 3 {
         if let Some((class, desc)) = dig_route(text, st) {
             st.violation(&class, order, format!("text ({} bytes): {:?}\n{desc}", text.len(), text), || json!({"kind": "parse", "via_dig": true, "text": text, "expected": ["load_test returns a test or an error with locations inside the text that can be rendered; never panics"], "observed": [desc.clone()]}));
@@ -637,7 +658,7 @@ pub fn run(mode: Mode, tier: Tier, seed: u64) -> i32 {
 
     let required: Vec<&'static str> = match mode {
         Mode::C09 => vec!["accepted_text", "rejected_text", "diagnostic_rendered", "leaf_at_depth_bound", "subtree_pruned_parser_did_not_reach_end", "text_with_multibyte_characters", "text_beyond_the_small_scope", "statement_start_followed_by_a_character_string", "text_parsed_as_the_source_of_a_test_of_a_dig_file"],
-        Mode::C12 => vec!["grammar_breaking_edit", "truncated_program_rejected_by_reference", "edit_leaves_text_valid", "leaf_at_depth_bound", "subtree_pruned_parser_did_not_reach_end", "text_beyond_the_small_scope"],
+        Mode::C12 => vec!["grammar_breaking_edit", "truncated_program_rejected_by_reference", "edit_leaves_text_valid", "leaf_at_depth_bound", "subtree_pruned_parser_did_not_reach_end", "text_beyond_the_small_scope", "malformed_text_written_into_a_loaded_file"],
     };
     let meta = CheckMeta {
         id,
@@ -659,6 +680,9 @@ pub fn run(mode: Mode, tier: Tier, seed: u64) -> i32 {
 }
 
 pub fn replay_parse(j: &serde_json::Value) -> Vec<String> {
+    if j["edited_file"].as_bool().unwrap_or(false) {
+        return vec![if accepted_after_edit_of_a_loaded_file(j["text"].as_str().unwrap_or("")) { "accepted".into() } else { "rejected".into() }];
+    }
     if j["via_dig"].as_bool().unwrap_or(false) {
         let mut st = Stats::default();
         return vec![dig_route(j["text"].as_str().unwrap_or(""), &mut st).map(|x| x.1).unwrap_or("load_test returns an error that can be rendered".into())];
